@@ -24,13 +24,18 @@ def instances(tier):
     for n in ([0, 1] if tier == 'quick' else [0, 1, 2]):
         for P in ([0, 36, 37, 38, 40, 41] if tier == 'quick' else [0, 4, 36, 37, 38, 39, 40, 41, 44, 48]):
             out.append((L, 'VH_C12_processAnswer', [n, P], {'weight': n * P + 1}))
+    for Lb in ([11, 12, 13] if tier == 'quick' else [6, 11, 12, 13, 14, 15]):
+        out.append(('code', 'VH_C08_code_methods', [Lb], {'weight': 2 ** (Lb - 8)}))
+        out.append((T, 'VH_C08_vmstack_tl', [Lb], {'weight': 2 ** (Lb - 8)}))
+    out.append(('liteapi', 'VH_C08_get_transactions', [], {'weight': 200}))
     return out
 
 
 CHECK = dict(
-    id='C08', pkgs=['tlb', 'liteclient', 'boc'], init_pkgs=['std:io', 'std:unicode/utf8', 'boc', 'tlb'], instances=instances, opts={'budget_s': 600, 'unwind': 400},
-    level_text='tlb.Unmarshal into MsgAddress, CurrencyCollection, StateInit, Message, HashmapE, VmStack, Text, SnakeData on ARBITRARY small cell trees (all root bits symbolic, 0..2 children with symbolic bits and symbolic cell type incl. pruned/library/Merkle), Cell.Hash on arbitrary (ill-formed) two-cell trees with any type/mask/length, tl.Unmarshal of representative generated lite-server types on ARBITRARY byte strings, MarshalTL with arbitrary mode bits, decodeLength/processQueryAnswer on arbitrary payloads: every Go run-time check is a VC, every allocation is bounded by the input size plus a constant, loops are bounded.',
-    level_note='Bounds: tree shapes and byte lengths in evidence.bounds. liteapi.GetTransactions / decodeAccountDataFromProof need a live pool and are outside this check; abi decoders are not covered.',
+    id='C08', pkgs=['tlb', 'liteclient', 'boc', 'code', 'liteapi'],
+    gen=[('harness/gen/gen_c08_liteapi.py', 'liteapi', 'gen_c08_liteapi.go')], init_pkgs=['std:io', 'std:unicode/utf8', 'boc', 'tlb', 'liteapi'], instances=instances, opts={'budget_s': 600, 'unwind': 400},
+    level_text='tlb.Unmarshal into MsgAddress, CurrencyCollection, StateInit, Message, HashmapE, VmStack, Text, SnakeData on ARBITRARY small cell trees (all root bits symbolic, 0..2 children with symbolic bits and symbolic cell type incl. pruned/library/Merkle), Cell.Hash on arbitrary (ill-formed) two-cell trees with any type/mask/length, tl.Unmarshal of representative generated lite-server types on ARBITRARY byte strings, MarshalTL with arbitrary mode bits, decodeLength/processQueryAnswer on arbitrary payloads: every Go run-time check is a VC, every allocation is bounded by the input size plus a constant, loops are bounded.  Helpers on network data: code.ParseContractMethods and tlb.VmStack.UnmarshalTL on every byte string of 11..13 bytes that starts with the generic bag-of-cells magic (1-byte indices/offsets family), liteapi.Client.GetTransactions on an answer with 0..2 block ids next to a bag holding one well-formed transaction (the network call below it is stubbed through the build overlay): a value or an error, every Go run-time check is a VC.',
+    level_note='Bounds: tree shapes and byte lengths in evidence.bounds. decodeAccountDataFromProof needs a live pool and is outside this check; abi decoders are not covered.',
     bounds={'tlb shapes (root bits, children, child bits)': 'see instances', 'tl byte lengths': 'see instances'},
-    outside_claim=['liteapi.GetTransactions (r.Ids[i]) and decodeAccountDataFromProof', 'abi message decoders', 'code.ParseContractMethods', 'time/space beyond the VC bounds', 'input sizes beyond the bounds'],
+    outside_claim=['decodeAccountDataFromProof', 'abi message decoders', 'code.ParseContractMethods / VmStack.UnmarshalTL beyond 13 input bytes (the bag-of-cells parser itself is C07)', 'time/space beyond the VC bounds', 'input sizes beyond the bounds'],
 )
